@@ -267,19 +267,19 @@ impl Property for C13 {
             let mut t = String::new();
             for tok in s.iter().take(7) {
                 t.push_str(tok);
-                t.push_str(*rng.pick(&[" ", "", "/**/", "\t", "/* c */", "\n", "  ", "/*)*/"]));
+                t.push_str(*rng.pick(&[" ", "", "/**/", "\t", "/* c */", "\n", "  ", "/*)*/", "\u{a0}", "\u{3000}", "\u{b}", "\u{2028}", "\u{85}", "\u{2003}"]));
             }
             cases.push(ill_case(&t, "random-gaps"));
         }
         for a in ["1", "x", "\"s\"", "true", "2.5", ")", "f"] {
             for b in ["1", "x", "\"s\"", "true", "2.5", "(", "!", "-"] {
-                for gap in ["/**/", "/* c */", "//\n", " /**/ "] {
+                for gap in ["/**/", "/* c */", "//\n", " /**/ ", "\u{a0}", "\u{3000}", "\u{b}", "\u{2028}", "\u{85}", "\u{1680}", "\u{205f}"] {
                     cases.push(ill_case(&format!("{}{}{}", a, gap, b), "operand-comment-operand"));
                     cases.push(ill_case(&format!("(1 + {}{}{})", a, gap, b), "operand-comment-operand"));
                 }
             }
         }
-        for s in ["\"\\\"(\"", "len(\"\\\")\")", "1 + 2 // that was easy :-)", "(1 /* ( */ + 2) * 3", "\"(\" + \")\"", "+ 1 f 2", "false && !", "true || -", "false &&", "true ||", "false && (1 +)", "x == 5 || (5 ==)", "false && 1 2", "true || f f", "1, 2)", "x = 1; x)", ",)"] {
+        for s in ["\"\\\"(\"", "len(\"\\\")\")", "1 + 2 // that was easy :-)", "(1 /* ( */ + 2) * 3", "\"(\" + \")\"", "+ 1 f 2", "false && !", "true || -", "false &&", "true ||", "false && (1 +)", "x == 5 || (5 ==)", "false && 1 2", "true || f f", "1, 2)", "x = 1; x)", ",)", "1 +\u{a0}", "1\u{a0}2", "x\u{3000}x", "(1\u{b}2)"] {
             cases.push(ill_case(s, "named"));
         }
         for s in ["+ 1 2", "1 + 2()", "-1()", "== 1 !true", "== x !true", "1, 2; 3", "1()", "123(1*2)", "!(()true)", "true-", "(", ")", "(()", "f f", "x !x"] {
